@@ -1,5 +1,5 @@
 (* C18 — fleet scale-up never leaks instances, whatever step fails.  Theorems only. *)
-From Esc Require Import SpecAws Scan proofs.AwsProofs proofs.ScanState.
+From Esc Require Import SpecAws Scan SpecScan proofs.AwsProofs proofs.ScanState.
 From Coq Require Import Permutation.
 
 (* For every acquired id list (any length) and every failure point — readiness deadline, failure of any subset of
@@ -70,3 +70,21 @@ Theorem c18_error_no_lock : forall e o mx dry st a tainted want,
   up_out r <> OutOk -> g_lock (up_state r) = g_lock st /\ up_ret r = 0.
 Proof. exact scale_up_error_no_lock. Qed.
 Print Assumptions c18_error_no_lock.
+
+(* ... and over whole scans, on what a journal shows: for every scan instant, dry flag, API content, group options,
+   controller memory, failure oracle, cloud group and listed nodes/pods, the scan leaves the lock time where it found it
+   unless the group is in dry mode or the journal shows a completed increase — SetDesiredCapacity accepted, or CreateFleet
+   accepted followed by at least one AttachInstances call and none refused (check_C18_group; the boolean checker the
+   correspondence run evaluates on OBSERVED journals and post-states, engine C18S) *)
+Theorem c18_lock_follows_capacity : forall now gdry api g a nodes pods,
+  let x := ctx_of now gdry api g a nodes pods in
+  let r := scan_of now gdry api g a nodes pods in
+  check_C18_group x (r_calls r) (r_state r) = true.
+Proof. exact group_passes_C18. Qed.
+Print Assumptions c18_lock_follows_capacity.
+
+(* the converse, on the provider: IncreaseSize reports success exactly when the journal shows the completed increase *)
+Theorem c18_success_iff_done : forall g d o calls r g',
+  aws_increase g d o = (calls, r, g') -> (r = IncOk <-> increase_done (liftA calls) = true).
+Proof. exact aws_increase_done_iff. Qed.
+Print Assumptions c18_success_iff_done.
